@@ -465,14 +465,11 @@ class DeterministicFiniteAutomaton(NondeterministicFiniteAutomaton):
                 return False
             if len(next_self) == 0:
                 continue
-            for next_temp, other_temp in zip(sorted(list(next_self),
-                                                    key=lambda x: x[0].value),
-                                             sorted(list(next_other),
-                                                    key=lambda x: x[0].value)):
-                next_symbol_self, next_state_self = next_temp
-                next_symbol_other, next_state_other = other_temp
-                if next_symbol_other != next_symbol_self:
+            next_other = dict(next_other)
+            for next_symbol_self, next_state_self in next_self:
+                if next_symbol_self not in next_other:
                     return False
+                next_state_other = next_other[next_symbol_self]
                 if next_state_self in matches:
                     if matches[next_state_self] != next_state_other:
                         return False
